@@ -126,7 +126,9 @@ def create_archive(
             [
                 "tar",
                 "czf",  # Create a new archive and use gzip to compress
-                str(output_archive_path),
+                # N.B. tar treats a relative name such as `host:file` as an
+                # archive on a remote machine; an absolute path is always local.
+                str(output_archive_path.absolute()),
                 "-C",  # Files to put in the archive are relative to `ctx.output_path`
                 str(ctx.output_path),
                 str(archive_index_path.relative_to(ctx.output_path)),
